@@ -89,6 +89,9 @@ def run(ctx):
     # R5: stack exhaustion aborts the whole process and is not caught by catch_unwind
     seen = G.reachable(R.connection_roots())
     recursion_rule(ctx, chk, "C06", "R5-no-recursion", seen)
+    # R6: a handler that never returns occupies its worker for ever
+    from .. import loops
+    loops.loop_rule(ctx, chk, "C06", "R6-handler-loops-terminate", seen)
     chk.assumptions += ["catch_unwind contains every unwinding panic (the crate is not built with panic=abort: Cargo.toml has no profile override)",
                         "same tables and allowlist as C04.P for the code outside the guard"]
     chk.undecided = ["stalled peers: no read timeout exists and timing is outside static reach", "transport-level resets are std behaviour"]
